@@ -670,7 +670,7 @@ def R2(ctx: Ctx) -> RuleResult:
             sh.read(g, pol)
         if sh.dep.get((Sym('expr', 'HplExpression'), alias)) is False and not sh.other and o.kind == 'return':
             v = o.value
-            ok = isinstance(v, TupleT) and v.items[0] == Sym('expr', 'HplExpression') and _fname(v.items[1]) == 'true'
+            ok = isinstance(v, TupleT) and len(v.items) == 2 and v.items[0] == Sym('expr', 'HplExpression') and FormulaBuilder(Shapes(), ctx).build(v.items[1]) == ('true',)
     (r.ok('_refactor_ref_expr: alias absent -> (expr, True) before anything else') if ok else r.fail('_refactor_ref_expr:absent', 'no leading branch returns (expr, True) when the alias does not occur', fi.where))
     r.floor('pair paths', n, 15)
     return r
